@@ -184,11 +184,16 @@ class CacheRun(object):
     h = self.mods.protocols.CacheManagementHandler()
     tr = StringTransport()
     h.makeConnection(tr)
-    req = pickle.dumps(dict(type='cache-query', metric=mname), protocol=2)
+    # every other query is a bulk query for this one series (graphite-web uses both request types)
+    self.nq = getattr(self, 'nq', 0) + 1
+    bulk = self.nq % 2 == 0
+    req = pickle.dumps(dict(type='cache-query-bulk', metrics=[mname]) if bulk else dict(type='cache-query', metric=mname), protocol=2)
     h.dataReceived(struct.pack('!L', len(req)) + req)
     raw = tr.value()
     (n,) = struct.unpack('!L', raw[:4])
     resp = pickle.loads(raw[4:4 + n])
+    if bulk:
+      resp = dict(datapoints=resp['datapointsByMetric'][mname])
     self.ev.append(dict(k='ret', t=t, op='query', exc=0, sig=0, m=self.mid(mname),
                         batch=[[self.tdec(a), dec(b)] for a, b in resp['datapoints']]))
 
